@@ -71,11 +71,17 @@ type Tuple struct {
 	OPct   uint64   `json:"oracle_reward_percentage"`
 	TPct   uint64   `json:"tss_reward_percentage"`
 	Tax    string   `json:"community_tax"`
+	// Discarded: see space.Discarded
+	Discarded bool `json:"discarded_executions,omitempty"`
 }
 
 func (t Tuple) String() string {
-	return fmt.Sprintf("pool=%s/%q mint=%v powers=%v oact=%v prop=%d group=%s opct=%d tpct=%d tax=%s",
+	s := fmt.Sprintf("pool=%s/%q mint=%v powers=%v oact=%v prop=%d group=%s opct=%d tpct=%d tax=%s",
 		t.Pool, t.Pool2, t.Mint, t.Powers, t.OAct, t.Prop, t.Group.key(), t.OPct, t.TPct, t.Tax)
+	if t.Discarded {
+		s += " +discarded-executions"
+	}
+	return s
 }
 
 // ---- base states ------------------------------------------------------------------------------
@@ -259,9 +265,45 @@ func (wk *worker) prepare(t Tuple) sdk.Context {
 			BlockIdFlag: cmtproto.BlockIDFlagCommit,
 		})
 	}
+	if t.Discarded {
+		wk.discardedExecutions(engine.Fork(ctx), t)
+	}
 	h := ctx.BlockHeader()
 	h.ProposerAddress = bandtesting.Validators[t.Prop].PubKey.Address()
 	return ctx.WithBlockHeader(h).WithVoteInfos(votes)
+}
+
+// discardedExecutions runs, on a branch g that the caller throws away, the real messages that would change who is paid
+// and how much: MsgActivate of every oracle-inactive validator, bandtss MsgActivate and MsgSubmitDEs of every member that
+// is inactive / has no nonce, and parameter updates with other percentages.  This is what the chain does with a
+// transaction whose later message fails, with a proposal whose later message fails, and with every gas simulation; the
+// stores of the block that follows are untouched, so the allocation must be the one of the tuple.
+func (wk *worker) discardedExecutions(g sdk.Context, t Tuple) {
+	w := wk.w
+	for i, on := range t.OAct {
+		if !on {
+			w.Tx(g, 0, oracletypes.NewMsgActivate(bandtesting.Validators[i].ValAddress))
+		}
+	}
+	if t.Group.N > 0 {
+		gid := w.App.BandtssKeeper.GetCurrentGroup(g).GroupID
+		for i := 0; i < t.Group.N; i++ {
+			acc := memberAccounts()[i]
+			if !t.Group.Active[i] {
+				w.Tx(g.WithBlockTime(g.BlockTime().Add(240*time.Hour)), 0, &bandtsstypes.MsgActivate{Sender: acc.Address.String(), GroupID: gid})
+			}
+			if !t.Group.HasDE[i] {
+				de := tsstestutil.GenerateDE(wk.secret)
+				w.Tx(g, 0, tsstypes.NewMsgSubmitDEs([]tsstypes.DE{de.PubDE}, acc.Address.String()))
+			}
+		}
+	}
+	op := w.App.OracleKeeper.GetParams(g)
+	op.OracleRewardPercentage = 100 - t.OPct
+	w.Tx(g, 0, oracletypes.NewMsgUpdateParams(w.App.OracleKeeper.GetAuthority(), op))
+	bp := w.App.BandtssKeeper.GetParams(g)
+	bp.RewardPercentage = 100 - t.TPct
+	w.Tx(g, 0, bandtsstypes.NewMsgUpdateParams(w.App.BandtssKeeper.GetAuthority(), bp))
 }
 
 // ---- snapshots --------------------------------------------------------------------------------
